@@ -2,6 +2,8 @@
 package c18
 
 import (
+	"math"
+
 	"github.com/csgura/fp"
 	"github.com/csgura/fp/as"
 	"github.com/csgura/fp/clone"
@@ -253,4 +255,25 @@ func VH_c18_generic() {
 		From: func(t fp.Tuple2[[]int, *int]) point { return point{t.I1, t.I2} },
 	}
 	check(clone.Generic(g, clone.Tuple2(clone.Slice(gi), clone.Ptr(lz(gi)))), point{mkSliceS("x"), mkPtrInt("y")}, "Generic(struct)")
+}
+
+// keys that are not equal to themselves: an entry under a NaN key is legal, is counted and ranged over, and can
+// never be looked up - its value is part of the map all the same and is cloned like the others
+func VH_c18_gomap_nan_keys() {
+	zz.Config("mapperm", 0)
+	m := map[float64][]int{}
+	if zz.Bool("plain") {
+		m[1.5] = mkSliceS("a")
+	}
+	m[math.NaN()] = mkSliceS("b")
+	if zz.Bool("second.nan") {
+		m[math.NaN()] = zz.SliceInt("c", 1, 0, 0) // another length, so that the entries cannot be confused whatever their order
+	}
+	check(clone.GoMap(clone.Given[float64](), clone.Slice(gi)), m, "GoMap(Given[float64],Slice) with NaN keys")
+	type fk struct {
+		f float64
+		n int
+	}
+	ms := map[fk]*int{{math.NaN(), zz.Int("n")}: mkPtrInt("p")}
+	check(clone.GoMap(clone.Given[fk](), clone.Ptr(lz(gi))), ms, "GoMap(Given[struct with a float],Ptr) with a NaN in the key")
 }
